@@ -42,7 +42,7 @@ def natLe (a b : Nat × Nat × Nat) : Bool :=
 
 /-! ### C01 -/
 
-def judgeC01 (ops impl : List String) : Bool × String :=
+def judgeC01Plain (ops impl : List String) : Bool × String :=
   match parse ops, parseOut impl with
   | some (cfg, rs), some threads =>
     let acc := accepted rs
@@ -63,6 +63,114 @@ def judgeC01 (ops impl : List String) : Bool × String :=
         (false, s!"samples differ: accepted {want.length} output {got.length}; missing (pid,tid,t) {missing.take 3}; unexpected {extra.take 3}")
   | none, _ => (false, "bad-op")
   | _, none => (false, s!"unparsable implementation output: {impl.take 2}")
+
+/-! ### context-switch families (C12 `conv` mode, C01) -/
+
+def lexLe : List Nat → List Nat → Bool
+  | [], _ => true
+  | _ :: _, [] => false
+  | a :: as, b :: bs => a < b || (a == b && lexLe as bs)
+
+/-- output samples of the `cs` projection as (pid, tid, t, off, weight, cpu µs); `none` if a line is malformed -/
+def csOut (threads : List OThread) : Option (List (List Nat)) :=
+  (threads.flatMap (fun t => t.samples.map (fun s => (baseOf t.pid, baseOf t.tid, s.1, s.2)))).mapM
+    (fun o => match o.2.2.2 with
+      | [kind, w, c] =>
+        if kind == "on" || kind == "off" then
+          some [o.1, o.2.1, o.2.2.1, if kind == "off" then 1 else 0, nat! w, nat! c]
+        else none
+      | _ => none)
+
+def csWant (cfg : Config) (rs : List Rec) : List (List Nat) :=
+  (CsSpec.expected cfg rs).map (fun e => [e.pid, e.tid, e.t - cfg.ref, if e.off then 1 else 0, e.weight, e.cpuNs / 1000])
+
+/-- see `judgeCs`; `got0` = the output samples as [pid, tid, t, off, weight, cpu µs] -/
+def judgeCsGot (cfg : Config) (rs : List Rec) (got0 : List (List Nat)) : Bool × String :=
+    let unkey (l : List (List Nat)) := if cfg.reuse then l.map (fun x => x.drop 2) else l
+    let want := (unkey (csWant cfg rs)).mergeSort lexLe
+    let got := (unkey got0).mergeSort lexLe
+    if want != got then
+      let missing := want.filter (fun w => !got.contains w)
+      let extra := got.filter (fun g => !want.contains g)
+      (false, s!"samples differ from the record history: expected {want.length} got {got.length}; expected-but-absent [pid,tid,t,off,weight,cpu] {missing.take 3}; unexpected {extra.take 3}")
+    else if cfg.reuse || CsSpec.hasCut rs then (true, "ok") else
+    let tab := (CsSpec.run cfg rs).1
+    let minT := (rs.map CsSpec.recTime).foldl min (rs.headD (.exit 0 0 0) |> CsSpec.recTime)
+    let rec go : List ((Nat × Nat) × CsSpec.TS) → Bool × String
+      | [] => (true, "ok")
+      | ((pid, tid), ts) :: rest =>
+        let mine := got0.filter (fun x => x.take 2 == [pid, tid])
+        let cpuSum := (mine.map (fun x => x.getD 5 0)).sum
+        let offW := ((mine.filter (fun x => x.getD 3 0 == 1)).map (fun x => x.getD 4 0)).sum
+        let wholeUs := (CsSpec.expected cfg rs).all (fun e => e.cpuNs % 1000 == 0)
+        if cfg.offCpu.isSome && wholeUs && cpuSum * 1000 != ts.handed then
+          (false, s!"cpu: thread {pid}/{tid}: cpu deltas add up to {cpuSum} µs, running time up to the last sample is {ts.handed} ns")
+        else if cfg.offCpu.isSome && !(decide (cpuSum * 1000 ≤ ts.handed) && decide (ts.handed < (cpuSum + mine.length + 1) * 1000)) then
+          (false, s!"cpu: thread {pid}/{tid}: cpu deltas add up to {cpuSum} µs in {mine.length} samples, running time is {ts.handed} ns")
+        else if cfg.offWeight == 1 && decide (ts.counted < 2^31) && offW + ts.dropped != ts.counted then
+          (false, s!"offcpu: thread {pid}/{tid}: off-CPU weights {offW} + dropped {ts.dropped} ≠ accounted units {ts.counted} (sleeping {ts.h.sleeping} ns, interval {cfg.interval})")
+        else if decide (cfg.ref ≤ minT) && (mine.filter (fun x => x.getD 3 0 == 1)).any (fun x =>
+            !(ts.sleeps.any (fun sl => decide (sl.1 - cfg.ref < x.getD 2 0) && decide (x.getD 2 0 ≤ sl.2 - cfg.ref)))) then
+          (false, s!"inside: thread {pid}/{tid}: an off-CPU sample lies outside every sleep {ts.sleeps.take 4}")
+        else go rest
+    go tab
+
+/-- see `judgeCs` -/
+def judgeCsCore (cfg : Config) (rs : List Rec) (impl : List String) : Bool × String :=
+  match parseOut impl with
+  | some threads =>
+    match csOut threads with
+    | none => (false, "unparsable sample line")
+    | some got0 => judgeCsGot cfg rs got0
+  | none => (false, s!"unparsable implementation output: {impl.take 2}")
+
+/-- The statement of C12 at converter level, evaluated on samply's output against the bare record history:
+(1) the samples of every thread are exactly the ones the declarative reading `CsSpec.expected` predicts (time,
+on/off, weight, cpu delta); and, on histories without EXIT / EXEC, per thread: (2) the cpu deltas add up to the
+running time observed up to the last sample that carries one (exactly when all deltas are whole µs, else within
+the rounding of one µs per sample); (3) the off-CPU weights add up to the units of sleeping time accounted,
+minus the units of dropped groups; (4) every off-CPU sample lies inside a sleep of its thread. -/
+def judgeCs (ops impl : List String) : Bool × String :=
+  -- outside the statement's quantifier (a sampling interval > 0, a time-ordered history): compared with the
+  -- model only
+  if cfgPanics ops then (true, "not-applicable: the event interpretation panics (frequency 0 / period 0)") else
+  match parse ops with
+  | some (cfg, rs) =>
+    if cfg.interval = 0 then (true, "not-applicable: interval 0") else
+    if !CsSpec.timeOrdered rs then (true, "not-applicable: history not time-ordered") else
+    judgeCsCore cfg rs impl
+  | none => (false, "bad-op")
+
+/-- C01 in the presence of context switches: "conservation of samples" reads (a) the *recorded* samples — output
+samples that do not carry a stored off-CPU stack — are exactly the accepted samples, each once, weight 1; (b) the
+synthesized off-CPU samples are additional samples and are exactly the groups the bare history predicts
+(a first sample of weight 1 unit and, for a group of n > 1 units, a rest sample of weight n − 1). -/
+def judgeC01Cs (ops impl : List String) : Bool × String :=
+  match parse ops, parseOut impl with
+  | some (cfg, rs), some threads =>
+    match csOut threads with
+    | none => (false, "unparsable sample line")
+    | some got0 =>
+      let unkey (l : List (List Nat)) := if cfg.reuse then l.map (fun x => x.drop 2) else l
+      let key4 (x : List Nat) := x.take 5   -- pid tid t off weight
+      let acc := (accepted rs).map (fun a => [a.pid, a.tid, a.t - cfg.ref, 0, 1])
+      let gotOn := (got0.filter (fun x => x.getD 3 0 == 0)).map key4
+      let w := (unkey acc).mergeSort lexLe
+      let g := (unkey gotOn).mergeSort lexLe
+      if w != g then
+        (false, s!"recorded samples differ: accepted {w.length} output {g.length}; missing [pid,tid,t,off,weight] {(w.filter (fun x => !g.contains x)).take 3}; unexpected {(g.filter (fun x => !w.contains x)).take 3}")
+      else if cfg.interval = 0 || !CsSpec.timeOrdered rs then (true, "ok (synthesized samples not judged)") else
+      let wantOff := (unkey (((csWant cfg rs).filter (fun x => x.getD 3 0 == 1)).map key4)).mergeSort lexLe
+      let gotOff := (unkey ((got0.filter (fun x => x.getD 3 0 == 1)).map key4)).mergeSort lexLe
+      if wantOff != gotOff then
+        (false, s!"synthesized off-CPU samples differ from the groups of the record history: expected {wantOff.length} got {gotOff.length}; missing {(wantOff.filter (fun x => !gotOff.contains x)).take 3}; unexpected {(gotOff.filter (fun x => !wantOff.contains x)).take 3}")
+      else (true, "ok")
+  | none, _ => (false, "bad-op")
+  | _, none => (false, s!"unparsable implementation output: {impl.take 2}")
+
+/-- recordings with context-switch settings are rendered in the `cs` projection and judged by `judgeC01Cs` -/
+def judgeC01 (ops impl : List String) : Bool × String :=
+  if (csWord ops).isSome then judgeC01Cs ops impl else judgeC01Plain ops impl
 
 /-! ### C17 -/
 
